@@ -3,7 +3,7 @@ CONSTANTS
  Confs <- AliasConfs
  MaxCloses = 3
  MaxOps = 1
- NormKeys = TRUE
+ KeyMode = "clean"
  Eager = FALSE
 SPECIFICATION Spec
 INVARIANTS TypeOK LocksNonNeg LocksExact MarkIsReach FallbackPresent CopyKeeps
